@@ -29,5 +29,16 @@ Definition rfc_pad8 (m : octets) : octets :=
 Definition rfc_padded_ok (padded : octets) (m : octets) : Prop :=
   exists n, 1 <= n <= 8 /\ padded = m ++ repeat n (Z.to_nat n) /\ (Z.of_nat (List.length padded)) mod 8 = 0.
 
+(* 8, receiving side: "the PKCS5 padding" in general -- some octets were added, at least one, each with the value of
+   their number.  The amount is NOT bounded by 8: "This encoding allows the sender to obfuscate the size of the symmetric
+   encryption key used to encrypt the data.  For example, assuming that an AES algorithm is used for the session key, the
+   sender MAY use 21, 13, and 5 bytes of padding for AES-128, AES-192, and AES-256, respectively, to provide the same
+   number of octets, 40 total, as an input to the key wrapping method." *)
+Definition rfc_pkcs5_padded (padded : octets) (m : octets) : Prop :=
+  exists n, 1 <= n /\ padded = m ++ repeat n (Z.to_nat n).
+(* the obfuscating sender of that example: pad to 40 octets in total *)
+Definition rfc_pad40 (m : octets) : octets :=
+  let n := 40 - Z.of_nat (List.length m) in m ++ repeat n (Z.to_nat n).
+
 (* 8: "Output (MPI(VB) || len(C) || C)" -- the field that follows the MPI *)
 Definition rfc_wrapped_field (C : octets) : octets := [Z.of_nat (List.length C)] ++ C.
